@@ -340,6 +340,15 @@ func (c *cache) derefNodePtr(
 			// If this is an internal node, check if the leaf node has been evicted.
 			// In this case treat it as if we need to re-fetch the node.
 			if n.LeafNode != nil && n.LeafNode.Node == nil {
+				if !ptr.Clean {
+					// A dirty internal node cannot be re-fetched, so only re-fetch its
+					// (clean) leaf node which has been evicted.
+					if _, err := c.derefNodePtr(ctx, n.LeafNode, fetcher); err != nil {
+						return nil, err
+					}
+					return ptr.Node, nil
+				}
+
 				c.removeNode(ptr)
 				refetch = true
 			}
